@@ -126,7 +126,7 @@ def startline():
 	o.append('def protocolRe : List UInt8 × Nat := %s' % pat(Protocol.PROTOCOL_RE))
 	import re
 	o.append('def methodReExpected : List UInt8 × Nat := (%s, %d)' % (lbytes(b'^[A-Z0-9$-_.]{1,20}\\Z'), re.IGNORECASE))
-	o.append('def statusReExpected : List UInt8 × Nat := (%s, 0)' % lbytes(b'^([1-5]\\d{2})(?:\\s+([\\s\\w]*))?\\Z'))
+	o.append('def statusReExpected : List UInt8 × Nat := (%s, 0)' % lbytes(b'^([1-5]\\d{2})(?:\\s+([\\s\\x21-\\x7e]*))?\\Z'))
 	o.append('def protocolReExpected : List UInt8 × Nat := (%s, 0)' % lbytes(b'^(HTTP)/(\\d+)\\.(\\d+)\\Z'))
 	o.append('def methodCharTable : List Bool := [' + ', '.join('true' if Method.METHOD_RE.match(bytes([b])) else 'false' for b in range(256)) + ']')
 	o.append('def statusReasonCharTable : List Bool := [' + ', '.join('true' if Status.STATUS_RE.match(b'200 ' + bytes([b])) else 'false' for b in range(256)) + ']')
